@@ -26,6 +26,7 @@ BP_OBJECTIVES = {
 BP_INSTANCES = ["asqas03", "asqas08", "a42", "a04", "a08", "beng01",
                 "cl01_020_01", "cl02_020_03"]
 TSP_INSTANCES = ["burma14", "ulysses16", "gr17", "gr21", "cn11"]
+ATSP_INSTANCES = ["br17", "ftv33", "p43", "ry48p", "ftv35", "gr17", "burma14"]
 TTP_INSTANCES = ["circ4", "circ6", "con4", "gal4", "nl4", "nl6", "sup4",
                  "circ8"]
 QAP_INSTANCES = ["chr12a", "had12", "nug12", "tai12a", "scr12"]
@@ -60,7 +61,7 @@ def make_instance(inst_id: str):
     if dom == "bp":
         from moptipyapps.binpacking2d.instance import Instance
         return Instance.from_resource(rest)
-    if dom == "tsp":
+    if dom in ("tsp", "atsp"):
         from moptipyapps.tsp.instance import Instance
         return Instance.from_resource(rest)
     if dom in ("ttp", "ttpmo"):
@@ -113,9 +114,19 @@ def _dcs_instance(sysname: str):
     and ANN model blueprint), on the shortened system."""
     from moptipyapps.dynamic_control.controllers.ann import make_ann
     from moptipyapps.dynamic_control.system_model import SystemModel
+    import numpy as np
+    from moptipyapps.dynamic_control.system import System
     key = ("dcs", sysname)
     if key not in _DC_CACHE:
-        system = _dc_instance(sysname, "linear").system
+        base = _dc_instance(sysname, "linear").system
+        # an even shorter horizon: learned ANN models can be stiff, and the
+        # cost of a stiff simulation grows with the simulated time
+        system = System(base.name, base.state_dims, base.control_dims,
+                        base.state_dim_mod, base.state_dims_in_j, base.gamma,
+                        np.array(base.test_starting_states),
+                        np.array(base.training_starting_states)[:2],
+                        30, 1.0, 20, 1.0, (0,))
+        system.equations = base.equations
         sd, cd = system.state_dims, system.control_dims
         _DC_CACHE[key] = (system, make_ann(sd, cd, [sd, sd]),
                           make_ann(sd + cd, sd, [sd, sd, sd]))
@@ -155,6 +166,23 @@ def make_setup(setup_id: str, budget: int):
                 Permutations.standard(inst.n_cities))
             .set_algorithm(cons(inst)).set_objective(TourLength(inst))
             .set_log_improvements(True))
+    if dom == "atsp":
+        # wiring of examples/tsp_rls.py: generic RLS with the tour-length
+        # objective, applicable to symmetric and asymmetric instances
+        from moptipy.algorithms.so.rls import RLS
+        from moptipy.api.execution import Execution
+        from moptipy.operators.permutations.op0_shuffle import Op0Shuffle
+        from moptipy.operators.permutations.op1_swapn import Op1SwapN
+        from moptipy.spaces.permutations import Permutations
+        from moptipyapps.tsp.tour_length import TourLength
+
+        def build(inst):
+            space = Permutations.standard(inst.n_cities)
+            return finish(Execution().set_solution_space(space)
+                          .set_algorithm(RLS(Op0Shuffle(space), Op1SwapN()))
+                          .set_objective(TourLength(inst))
+                          .set_log_improvements(True))
+        return build
     if dom == "ttp":
         mod = _example("ttp_example_experiment_rls_rs")
         fn = mod.rls if parts[1] == "rls" else mod.rs
@@ -202,6 +230,8 @@ def instances_for(dom: str) -> list:
         return [f"bp:{n}" for n in BP_INSTANCES]
     if dom == "tsp":
         return [f"tsp:{n}" for n in TSP_INSTANCES]
+    if dom == "atsp":
+        return [f"atsp:{n}" for n in ATSP_INSTANCES]
     if dom == "ttp":
         return [f"ttp:{n}" for n in TTP_INSTANCES]
     if dom == "ttpmo":
